@@ -8,10 +8,21 @@ Lemma sgn_cmp_spec a b :
   (a < b /\ sgn_cmp a b = -1) \/ (a = b /\ sgn_cmp a b = 0) \/ (b < a /\ sgn_cmp a b = 1).
 Proof. unfold sgn_cmp. destruct (Z.compare_spec a b); [right; left|left|right; right]; split; auto. Qed.
 
-(* well-formed: decimal scales are non-negative *)
+(* well-formed: decimal scales are non-negative, and the operand is of a kind the type compares
+   (numbers for integer / DECIMAL types, temporal operands for temporal types, strings for the binary collation) *)
 Definition wf_val (v : value) : Prop := match v with SD _ s => 0 <= s | _ => True end.
-Definition wf (c : cval) : Prop := match c with CNull => True | CV v => wf_val v end.
-Definition wf_type (t : ctype) : Prop := match t with CInt _ => True | CDec s _ => 0 <= s end.
+Definition numeric_type (t : ctype) : Prop := match t with CInt _ | CDec _ _ => True | _ => False end.
+Definition wf_for (t : ctype) (c : cval) : Prop :=
+  match c with
+  | CNull => True
+  | CV v => numeric_type t /\ wf_val v
+  | CX x => match t with
+            | CInt _ | CDec _ _ => False
+            | CBin => match x with TStr _ => True | _ => False end
+            | _ => True
+            end
+  end.
+Definition wf_type (t : ctype) : Prop := match t with CDec s _ => 0 <= s | _ => True end.
 
 Lemma key_dec_scale s col v : 0 <= s -> wf_val v -> 0 <= snd (key_dec s col v).
 Proof.
@@ -61,58 +72,113 @@ Proof.
   apply Z.mul_cancel_r with (p := 10 ^ s2); [lia|]. nia.
 Qed.
 
+(* byte-wise lexicographic comparison is a total order *)
+Lemma cmp_bytes_refl a : cmp_bytes a a = 0.
+Proof. induction a as [|x a IH]; cbn [cmp_bytes]; [reflexivity|]. rewrite Z.compare_refl. exact IH. Qed.
+
+Lemma cmp_bytes_antisym a : forall b, cmp_bytes a b = - cmp_bytes b a.
+Proof.
+  induction a as [|x a IH]; intros [|y b]; cbn [cmp_bytes]; try reflexivity.
+  rewrite (Z.compare_antisym x y). destruct (x ?= y); cbn [CompOpp]; [apply IH|reflexivity|reflexivity].
+Qed.
+
+Lemma cmp_bytes_range a : forall b, cmp_bytes a b = -1 \/ cmp_bytes a b = 0 \/ cmp_bytes a b = 1.
+Proof.
+  induction a as [|x a IH]; intros [|y b]; cbn [cmp_bytes]; auto.
+  destruct (x ?= y); auto.
+Qed.
+
+Lemma cmp_bytes_eq a : forall b, cmp_bytes a b = 0 -> a = b.
+Proof.
+  induction a as [|x a IH]; intros [|y b]; cbn [cmp_bytes]; intros H; try reflexivity; try discriminate.
+  destruct (Z.compare_spec x y); try discriminate. subst. f_equal. apply IH. exact H.
+Qed.
+
+Lemma cmp_bytes_trans a : forall b c, cmp_bytes a b <= 0 -> cmp_bytes b c <= 0 -> cmp_bytes a c <= 0.
+Proof.
+  induction a as [|x a IH]; intros [|y b] [|z c]; cbn [cmp_bytes]; intros H1 H2; try lia.
+  destruct (Z.compare_spec x y) as [E1|L1|G1]; destruct (Z.compare_spec y z) as [E2|L2|G2];
+    destruct (Z.compare_spec x z) as [E3|L3|G3]; try lia.
+  apply (IH b c); assumption.
+Qed.
+
+Lemma sgn_cmp_trans x y z : sgn_cmp x y <= 0 -> sgn_cmp y z <= 0 -> sgn_cmp x z <= 0.
+Proof.
+  destruct (sgn_cmp_spec x y) as [[H ->]|[[H ->]|[H ->]]];
+    destruct (sgn_cmp_spec y z) as [[G ->]|[[G ->]|[G ->]]];
+    destruct (sgn_cmp_spec x z) as [[K ->]|[[K ->]|[K ->]]]; lia.
+Qed.
+Lemma sgn_cmp_eq_trans x y z : sgn_cmp x y = 0 -> sgn_cmp y z = 0 -> sgn_cmp x z = 0.
+Proof.
+  destruct (sgn_cmp_spec x y) as [[H ->]|[[H ->]|[H ->]]];
+    destruct (sgn_cmp_spec y z) as [[G ->]|[[G ->]|[G ->]]];
+    destruct (sgn_cmp_spec x z) as [[K ->]|[[K ->]|[K ->]]]; lia.
+Qed.
+Lemma sgn_cmp_refl x : sgn_cmp x x = 0.
+Proof. unfold sgn_cmp. rewrite Z.compare_refl. reflexivity. Qed.
+Lemma sgn_cmp_antisym x y : sgn_cmp x y = - sgn_cmp y x.
+Proof. unfold sgn_cmp. rewrite (Z.compare_antisym y x). destruct (y ?= x); reflexivity. Qed.
+
 (* ---------- the order laws, for every modelled type and all values including NULL ---------- *)
 Theorem compare_refl t a : compare t a a = 0.
 Proof.
-  destruct a as [|x]; [reflexivity|]. destruct t as [it|s col]; cbn [compare].
-  - destruct (sgn_cmp_spec (key_int it x) (key_int it x)) as [[H _]|[[_ H]|[H _]]]; lia.
-  - apply cmp_dec_refl.
+  destruct a as [|x|x]; [reflexivity| |].
+  - destruct t; cbn [compare]; try reflexivity; [apply sgn_cmp_refl|apply cmp_dec_refl].
+  - destruct t; cbn [compare]; try apply sgn_cmp_refl. destruct x; try reflexivity. apply cmp_bytes_refl.
 Qed.
 
 Theorem compare_antisym t a b : compare t a b = - compare t b a.
 Proof.
-  destruct a as [|x], b as [|y]; try reflexivity. destruct t as [it|s col]; cbn [compare].
-  - destruct (sgn_cmp_spec (key_int it x) (key_int it y)) as [[H ->]|[[H ->]|[H ->]]];
-      destruct (sgn_cmp_spec (key_int it y) (key_int it x)) as [[G ->]|[[G ->]|[G ->]]]; lia.
-  - apply cmp_dec_antisym.
+  destruct a as [|x|x], b as [|y|y]; try reflexivity.
+  - destruct t; cbn [compare]; try reflexivity; [apply sgn_cmp_antisym|apply cmp_dec_antisym].
+  - destruct t; cbn [compare]; try apply sgn_cmp_antisym. destruct x, y; try reflexivity. apply cmp_bytes_antisym.
 Qed.
 
 Theorem compare_trans t a b c :
-  wf_type t -> wf a -> wf b -> wf c ->
+  wf_type t -> wf_for t a -> wf_for t b -> wf_for t c ->
   compare t a b <= 0 -> compare t b c <= 0 -> compare t a c <= 0.
 Proof.
-  intros Ht Ha Hb Hc. destruct a as [|x], b as [|y], c as [|z]; cbn [compare]; try lia.
-  destruct t as [it|s col]; cbn [wf_type wf] in *.
-  - destruct (sgn_cmp_spec (key_int it x) (key_int it y)) as [[H ->]|[[H ->]|[H ->]]];
-      destruct (sgn_cmp_spec (key_int it y) (key_int it z)) as [[G ->]|[[G ->]|[G ->]]];
-      destruct (sgn_cmp_spec (key_int it x) (key_int it z)) as [[K ->]|[[K ->]|[K ->]]]; lia.
-  - apply cmp_dec_trans; apply key_dec_scale; assumption.
+  intros Ht Ha Hb Hc.
+  destruct a as [|x|x], b as [|y|y], c as [|z|z]; cbn [compare]; try lia;
+    cbn [wf_for] in Ha, Hb, Hc; try (destruct t; cbn [numeric_type] in *; tauto).
+  - (* numbers *) destruct t; cbn [numeric_type] in *; try tauto.
+    + apply sgn_cmp_trans.
+    + apply cmp_dec_trans; apply key_dec_scale; tauto.
+  - (* temporal / strings *) destruct t; try tauto; try apply sgn_cmp_trans.
+    destruct x, y, z; try tauto. apply cmp_bytes_trans.
 Qed.
 
 Theorem compare_eq_trans t a b c :
-  wf_type t -> wf a -> wf b -> wf c ->
+  wf_type t -> wf_for t a -> wf_for t b -> wf_for t c ->
   compare t a b = 0 -> compare t b c = 0 -> compare t a c = 0.
 Proof.
-  intros Ht Ha Hb Hc. destruct a as [|x], b as [|y], c as [|z]; cbn [compare]; try lia.
-  destruct t as [it|s col]; cbn [wf_type wf] in *.
-  - destruct (sgn_cmp_spec (key_int it x) (key_int it y)) as [[H ->]|[[H ->]|[H ->]]];
-      destruct (sgn_cmp_spec (key_int it y) (key_int it z)) as [[G ->]|[[G ->]|[G ->]]];
-      destruct (sgn_cmp_spec (key_int it x) (key_int it z)) as [[K ->]|[[K ->]|[K ->]]]; lia.
-  - apply cmp_dec_eq_trans; apply key_dec_scale; assumption.
+  intros Ht Ha Hb Hc.
+  destruct a as [|x|x], b as [|y|y], c as [|z|z]; cbn [compare]; try lia;
+    cbn [wf_for] in Ha, Hb, Hc; try (destruct t; cbn [numeric_type] in *; tauto).
+  - destruct t; cbn [numeric_type] in *; try tauto.
+    + apply sgn_cmp_eq_trans.
+    + apply cmp_dec_eq_trans; apply key_dec_scale; tauto.
+  - destruct t; try tauto; try apply sgn_cmp_eq_trans.
+    destruct x, y, z; try tauto. intros H1 H2. apply cmp_bytes_eq in H1, H2. subst. apply cmp_bytes_refl.
 Qed.
 
 Theorem compare_total t a b : compare t a b = -1 \/ compare t a b = 0 \/ compare t a b = 1.
 Proof.
-  destruct a as [|x], b as [|y]; cbn [compare]; auto.
-  destruct t as [it|s col].
-  - destruct (sgn_cmp_spec (key_int it x) (key_int it y)) as [[_ ->]|[[_ ->]|[_ ->]]]; auto.
-  - unfold cmp_dec. destruct (key_dec s col x) as [m1 s1], (key_dec s col y) as [m2 s2].
-    destruct (sgn_cmp_spec (m1 * 10 ^ s2) (m2 * 10 ^ s1)) as [[_ ->]|[[_ ->]|[_ ->]]]; auto.
+  assert (S : forall x y, sgn_cmp x y = -1 \/ sgn_cmp x y = 0 \/ sgn_cmp x y = 1).
+  { intros x y. destruct (sgn_cmp_spec x y) as [[_ ->]|[[_ ->]|[_ ->]]]; auto. }
+  destruct a as [|x|x], b as [|y|y]; cbn [compare]; auto.
+  - destruct t; auto. unfold cmp_dec. destruct (key_dec s col x), (key_dec s col y). apply S.
+  - destruct t; auto. destruct x, y; auto. apply cmp_bytes_range.
 Qed.
 
+(* under the binary collation two strings compare equal only if they are the same bytes *)
+Theorem binary_compare_equal_iff p q : compare CBin (CX (TStr p)) (CX (TStr q)) = 0 <-> p = q.
+Proof. cbn [compare]. split; [apply cmp_bytes_eq|intros ->; apply cmp_bytes_refl]. Qed.
+
 (* NULL: CompareNulls puts NULL after every non-NULL value (consistently), not before *)
-Theorem null_sorts_last t x : compare t CNull (CV x) = 1 /\ compare t (CV x) CNull = -1 /\ compare t CNull CNull = 0.
-Proof. repeat split. Qed.
+Theorem null_sorts_last t x :
+  x <> CNull -> compare t CNull x = 1 /\ compare t x CNull = -1 /\ compare t CNull CNull = 0.
+Proof. intros H. destruct x; [contradiction| |]; repeat split. Qed.
 
 (* compare-after-convert: witnesses where Convert (in range) changes the comparison *)
 Lemma via_convert_unsigned_negative_fraction :
@@ -155,4 +221,104 @@ Lemma nonvacuous_compares :
   compare (CInt U8) (CV (SI (-1))) (CV (SU 255)) = 1 /\
   compare (CDec 2 true) (CV (SD 1001 3)) (CV (SD 1002 3)) = 0 /\
   compare (CDec 2 false) (CV (SI 1)) (CV (SD 10 1)) = 0.
+Proof. repeat split; vm_compute; reflexivity. Qed.
+
+(* ---------- the day count is the chronological order: strictly monotone in (year, month, day)
+   over every valid date of the years 1000..9999 (checked month by month by the kernel, then lifted) ---------- *)
+Definition leap (y : Z) : bool := (y mod 4 =? 0) && (negb (y mod 100 =? 0) || (y mod 400 =? 0)).
+Definition mlen (y m : Z) : Z :=
+  if m =? 2 then (if leap y then 29 else 28)
+  else if (m =? 4) || (m =? 6) || (m =? 9) || (m =? 11) then 30 else 31.
+Definition valid_date (y m d : Z) : Prop := 1000 <= y <= 9999 /\ 1 <= m <= 12 /\ 1 <= d <= mlen y m.
+
+(* month index k = 12*y + (m-1); first day of that month *)
+Definition first_of (k : Z) : Z := days_from_civil (k / 12) (k mod 12 + 1) 1.
+Definition step_ok (k : Z) : bool := first_of (k + 1) =? first_of k + mlen (k / 12) (k mod 12 + 1).
+Fixpoint chk (n : nat) (k : Z) : bool := match n with O => true | S n' => step_ok k && chk n' (k + 1) end.
+
+Lemma chk_spec n : forall k, chk n k = true -> forall i, 0 <= i < Z.of_nat n -> step_ok (k + i) = true.
+Proof.
+  induction n as [|n IH]; intros k H i Hi; [lia|].
+  cbn [chk] in H. apply andb_prop in H. destruct H as [H1 H2].
+  destruct (Z.eq_dec i 0) as [->|Hn]; [rewrite Z.add_0_r; exact H1|].
+  replace (k + i) with (k + 1 + (i - 1)) by lia. apply IH; [exact H2|lia].
+Qed.
+
+Lemma all_months_consecutive : chk (Z.to_nat 108000) 12000 = true.
+Proof. vm_compute. reflexivity. Qed.
+
+Lemma month_step k : 12000 <= k < 120000 -> first_of (k + 1) = first_of k + mlen (k / 12) (k mod 12 + 1).
+Proof.
+  intros H. pose proof (chk_spec _ _ all_months_consecutive (k - 12000) ltac:(lia)) as S.
+  replace (12000 + (k - 12000)) with k in S by lia. unfold step_ok in S. apply Z.eqb_eq in S. exact S.
+Qed.
+
+Lemma mlen_pos y m : 28 <= mlen y m.
+Proof. unfold mlen. destruct (m =? 2); [destruct (leap y); lia|]. destruct (_ || _); lia. Qed.
+
+Lemma first_of_mono n : forall k, 12000 <= k -> k + Z.of_nat n <= 120000 -> first_of k <= first_of (k + Z.of_nat n).
+Proof.
+  induction n as [|n IH]; intros k H1 H2; [rewrite Z.add_0_r; lia|].
+  rewrite Nat2Z.inj_succ. replace (k + Z.succ (Z.of_nat n)) with (k + Z.of_nat n + 1) by lia.
+  rewrite month_step by lia. pose proof (mlen_pos ((k + Z.of_nat n) / 12) ((k + Z.of_nat n) mod 12 + 1)).
+  specialize (IH k H1 ltac:(lia)). lia.
+Qed.
+
+Lemma days_linear_in_day y m d : days_from_civil y m d = days_from_civil y m 1 + (d - 1).
+Proof. unfold days_from_civil. lia. Qed.
+
+Lemma month_index y m : 1 <= m <= 12 -> (12 * y + (m - 1)) / 12 = y /\ (12 * y + (m - 1)) mod 12 + 1 = m.
+Proof.
+  intros H. pose proof (Z.div_mod (12 * y + (m - 1)) 12 ltac:(lia)).
+  pose proof (Z.mod_pos_bound (12 * y + (m - 1)) 12 ltac:(lia)). lia.
+Qed.
+
+Theorem days_strictly_chronological y1 m1 d1 y2 m2 d2 :
+  valid_date y1 m1 d1 -> valid_date y2 m2 d2 ->
+  (y1 < y2 \/ (y1 = y2 /\ (m1 < m2 \/ (m1 = m2 /\ d1 < d2)))) ->
+  days_from_civil y1 m1 d1 < days_from_civil y2 m2 d2.
+Proof.
+  intros (Hy1 & Hm1 & Hd1) (Hy2 & Hm2 & Hd2) L.
+  set (k1 := 12 * y1 + (m1 - 1)). set (k2 := 12 * y2 + (m2 - 1)).
+  destruct (month_index y1 m1 Hm1) as [A1 B1]. destruct (month_index y2 m2 Hm2) as [A2 B2].
+  assert (F1 : days_from_civil y1 m1 d1 = first_of k1 + (d1 - 1))
+    by (unfold first_of, k1; rewrite A1, B1; apply days_linear_in_day).
+  assert (F2 : days_from_civil y2 m2 d2 = first_of k2 + (d2 - 1))
+    by (unfold first_of, k2; rewrite A2, B2; apply days_linear_in_day).
+  rewrite F1, F2.
+  destruct (Z_lt_le_dec k1 k2) as [K|K].
+  - pose proof (month_step k1 ltac:(unfold k1; lia)) as S. fold k1 in A1, B1. rewrite A1, B1 in S.
+    pose proof (first_of_mono (Z.to_nat (k2 - (k1 + 1))) (k1 + 1) ltac:(unfold k1; lia)
+                  ltac:(rewrite Z2Nat.id by lia; unfold k2; lia)) as M.
+    rewrite Z2Nat.id in M by lia. replace (k1 + 1 + (k2 - (k1 + 1))) with k2 in M by lia. lia.
+  - assert (k1 = k2) by (unfold k1, k2 in *; lia). assert (m1 = m2 /\ y1 = y2) by (unfold k1, k2 in *; lia).
+    replace k2 with k1 by assumption. lia.
+Qed.
+
+(* hence the microsecond count orders two instants with valid time-of-day fields chronologically *)
+Definition valid_tod (h mi s us : Z) : Prop := 0 <= h <= 23 /\ 0 <= mi <= 59 /\ 0 <= s <= 59 /\ 0 <= us <= 999999.
+
+Theorem us_of_strictly_chronological y1 m1 d1 h1 mi1 s1 us1 y2 m2 d2 h2 mi2 s2 us2 :
+  valid_date y1 m1 d1 -> valid_date y2 m2 d2 -> valid_tod h1 mi1 s1 us1 -> valid_tod h2 mi2 s2 us2 ->
+  (y1 < y2 \/ (y1 = y2 /\ (m1 < m2 \/ (m1 = m2 /\ d1 < d2)))) ->
+  us_of y1 m1 d1 h1 mi1 s1 us1 < us_of y2 m2 d2 h2 mi2 s2 us2.
+Proof.
+  intros V1 V2 T1 T2 L. pose proof (days_strictly_chronological _ _ _ _ _ _ V1 V2 L).
+  unfold us_of, day_us, valid_tod in *. lia.
+Qed.
+
+Theorem us_of_same_day_chronological y m d h1 mi1 s1 us1 h2 mi2 s2 us2 :
+  valid_tod h1 mi1 s1 us1 -> valid_tod h2 mi2 s2 us2 ->
+  (h1 < h2 \/ (h1 = h2 /\ (mi1 < mi2 \/ (mi1 = mi2 /\ (s1 < s2 \/ (s1 = s2 /\ us1 < us2)))))) ->
+  us_of y m d h1 mi1 s1 us1 < us_of y m d h2 mi2 s2 us2.
+Proof. intros T1 T2 L. unfold us_of, valid_tod in *. lia. Qed.
+
+Lemma nonvacuous_temporal :
+  compare (CDatetime 0) (CX (TTime 1500 6 15 0 0 0 0)) (CX (TTime 2000 1 1 0 0 0 0)) = -1 /\
+  compare (CDatetime 6) (CX (TTime 9999 12 31 23 59 59 999999)) (CX (TText 2000 1 1 0 0 0 0)) = 1 /\
+  compare CDate (CX (TTime 2024 2 29 23 0 0 0)) (CX (TText 2024 2 29 0 0 0 0)) = 0 /\
+  compare (CDatetime 0) (CX (TText 2023 1 15 10 30 45 500000)) (CX (TTime 2023 1 15 10 30 46 0)) = 0 /\
+  compare CYear (CX (TYearI 69)) (CX (TYearS 70)) = 1 /\
+  compare CBin (CX (TStr [97])) (CX (TStr [97; 98])) = -1 /\
+  days_from_civil 1970 1 1 = 0 /\ days_from_civil 2000 3 1 = 11017.
 Proof. repeat split; vm_compute; reflexivity. Qed.
